@@ -34,7 +34,10 @@ theorem tokInv_run (accts : List Acct) (groups : List (Nat × List Acct)) (hw : 
   tinv_tokInv hw.1 (TInv_run hw hnd acts (initSys accts groups) (init_TInv hw) ha hf (by
     show ([] : List (Acct × Node)).length + sendCountAux acts ≤ 100
     rw [← sendCount_eq]
-    simpa using hn))
+    simpa using hn)) (by
+    rw [run_submitted_len acts _ (init_inv accts groups hw) ha, ← sendCount_eq]
+    show ([] : List (Acct × Node)).length + sendCount acts ≤ 100
+    simpa using hn)
 
 theorem tokInv_conserved {s : Sys} (h : tokInv s = true) : conserved s = true := by
   simp only [tokInv, Bool.and_eq_true] at h
